@@ -265,33 +265,19 @@ func (v *valueProperty) Value(key interface{}) interface{} {
 // responsibility of key/value adding code to strip out existing identical keys
 // first.
 func stripReturnValue(ps propertySet, key interface{}) (interface{}, propertySet) {
-	top, ok := ps.(*valueProperty)
+	this, ok := ps.(*valueProperty)
 	if !ok {
+		// we stop at the first non-valueProperty (the end of the chain)
 		return nil, ps
-	}
-	if top.key == key {
-		return top.val, top.chain
-	}
-	if top.chain == nil || top.chain == noProperty {
-		return nil, ps
-	}
-	return stripChainReturnValue(top, top, top.chain, key)
-}
-
-func stripChainReturnValue(top, parent *valueProperty, this_ propertySet, key interface{}) (interface{}, propertySet) {
-	this, ok := this_.(*valueProperty)
-	if !ok {
-		// we break the chain if non-valueProperty are intermingled
-		return nil, top
 	}
 	if this.key == key {
-		// caller ensures that this != top/parent
-		parent.chain = this.chain
-		this.chain = nil
-		return this.val, top
+		return this.val, this.chain
 	}
-	if this.chain == nil || this.chain == noProperty {
-		return nil, top
+	// Links are never edited in place: a by-value copy of a property owner
+	// (eg a Cell) shares them, so the links above a removed one are rebuilt.
+	val, rest := stripReturnValue(this.chain, key)
+	if rest == this.chain {
+		return nil, ps
 	}
-	return stripChainReturnValue(top, this, this.chain, key)
+	return val, &valueProperty{rest, this.key, this.val}
 }
